@@ -165,25 +165,38 @@ class Gen:
         if not vs:
             return self.ev_unauthorized()
         tag, fields = r.choice(vs)
+        # the sender first: accounts with open requests (the more the better) are the interesting callers of anything
+        # that looks like a withdrawal; ids of their batches, with repeats, are the interesting id lists
+        rich = sorted(su.users + [su.contract_like], key=lambda u: -len(self.h.requests_of(u)))
+        sender = rich[0] if (self.h.requests_of(rich[0]) and r.random() < 0.6) else r.choice(
+            su.users + su.users + [su.admin] + su.monitors + [su.contract_like])
+        own = [x["batch_id"] for x in self.h.requests_of(sender)]
 
         def val(ty):
             if ty.startswith("Option<"):
                 return None if r.random() < 0.4 else val(ty[7:-1])
+            if ty.startswith("Vec<u64>") and own and r.random() < 0.7:
+                k = r.choice([1, 2, 3, 3, 4])
+                xs = [r.choice(own) for _ in range(k)]
+                if len(own) >= 2 and r.random() < 0.5:
+                    a_, b_ = r.sample(own, 2)
+                    xs = [a_, b_, a_]
+                return xs
             if ty.startswith("Vec<"):
-                return [] if r.random() < 0.5 else [val(ty[4:-1])]
+                return [val(ty[4:-1]) for _ in range(r.choice([0, 1, 2, 3, 3, 4]))]
             if ty in ("String", "Addr"):
                 return r.choice(su.users + [su.admin, su.contract, su.treasury, su.staker, su.native_users[0]])
             if ty in ("Uint128", "u128"):
                 return str(r.choice([0, 1, 1000, 10 ** 6]))
             if ty in ("u64", "u32", "u8", "usize"):
-                return r.choice([0, 1, 2, 10])
+                nb = max(1, len(self.h.batches()))
+                return r.choice([0, 1, 1, 2, 2, 3, 10, r.randrange(1, nb + 1), r.randrange(1, nb + 1)])
             if ty == "bool":
                 return r.random() < 0.5
             if ty == "Coin":
                 return coin(r.choice([STAKED, su.lst]), r.choice([1, 1000]))
             return None
         msg = {tag: {f: val(t) for f, t in fields}}
-        sender = r.choice(su.users + [su.admin] + su.monitors + [su.contract_like])
         funds = []
         if r.random() < 0.3:
             amt = r.choice([1, 1000])
@@ -619,6 +632,17 @@ class Gen:
         return [ev]
 
     def next_events(self):
+        # the configured channel changed since the last look: the new channel has its own packet numbering, which may
+        # stand anywhere -- below numbers already used on the previous channel included
+        try:
+            cur = self.h.config()["protocol_chain_config"]["ibc_channel_id"]
+        except Exception:  # noqa: BLE001
+            cur = None
+        last = getattr(self, "last_channel", None)
+        self.last_channel = cur
+        if last is not None and cur is not None and cur != last and self.rng.random() < 0.6:
+            seqs = [p["seq"] for p in self.h.pkts()] or [1]
+            return [{"ev": "reseq", "next": self.rng.choice([1, min(seqs), self.rng.choice(seqs), max(seqs)])}]
         k = pick_weighted(self.rng, self.w)
         return getattr(self, "ev_" + k)()
 
